@@ -100,4 +100,102 @@ Writable(v) ==
     [] v.t = "arr" -> \A i \in 1..Len(v.a) : Writable(v.a[i])
     [] v.t = "obj" -> ~(v.uo /\ Len(v.o) > 1) /\ \A i \in 1..Len(v.o) : Writable(v.o[i][1]) /\ Writable(v.o[i][2])
     [] OTHER -> TRUE
+-----------------------------------------------------------------------------
+(* string formatters (manual, stdlib "Text string formatting", "fromcsv/tocsv", "fromtsv/totsv") *)
+
+\* Base64 of a byte sequence (standard alphabet, padded)
+B64Char(n) == IF n < 26 THEN 65 + n ELSE IF n < 52 THEN 97 + (n - 26) ELSE IF n < 62 THEN 48 + (n - 52) ELSE IF n = 62 THEN 43 ELSE 47
+RECURSIVE Base64(_)
+Base64(b) ==
+  IF b = <<>> THEN <<>>
+  ELSE IF Len(b) = 1 THEN << B64Char(b[1] \div 4), B64Char((b[1] % 4) * 16), 61, 61 >>
+  ELSE IF Len(b) = 2 THEN << B64Char(b[1] \div 4), B64Char((b[1] % 4) * 16 + b[2] \div 16), B64Char((b[2] % 16) * 4), 61 >>
+  ELSE << B64Char(b[1] \div 4), B64Char((b[1] % 4) * 16 + b[2] \div 16), B64Char((b[2] % 16) * 4 + b[3] \div 64), B64Char(b[3] % 64) >>
+       \o Base64(SubSeq(b, 4, Len(b)))
+
+\* percent-encoding of a byte sequence: unreserved characters stay
+Unreserved(b) == (b >= 65 /\ b <= 90) \/ (b >= 97 /\ b <= 122) \/ (b >= 48 /\ b <= 57) \/ b \in {45, 95, 46, 126}
+HxU(d) == IF d < 10 THEN 48 + d ELSE 55 + d
+RECURSIVE PercentEnc(_)
+PercentEnc(b) == IF b = <<>> THEN <<>> ELSE (IF Unreserved(Head(b)) THEN << Head(b) >> ELSE << 37, HxU(Head(b) \div 16), HxU(Head(b) % 16) >>) \o PercentEnc(Tail(b))
+
+\* the five HTML entities
+HtmlOne(c) ==
+  CASE c = 60 -> << 38, 108, 116, 59 >> [] c = 62 -> << 38, 103, 116, 59 >> [] c = 38 -> << 38, 97, 109, 112, 59 >>
+    [] c = 39 -> << 38, 97, 112, 111, 115, 59 >> [] c = 34 -> << 38, 113, 117, 111, 116, 59 >> [] OTHER -> << c >>
+RECURSIVE HtmlEnc(_)
+HtmlEnc(cs) == IF cs = <<>> THEN <<>> ELSE HtmlOne(Head(cs)) \o HtmlEnc(Tail(cs))
+
+\* @sh of a scalar
+RECURSIVE ShQuote(_)
+ShQuote(cs) == IF cs = <<>> THEN <<>> ELSE (IF Head(cs) = 39 THEN << 39, 92, 39, 39 >> ELSE << Head(cs) >>) \o ShQuote(Tail(cs))
+ShScalar(v) == IF v.t = "str" THEN << 39 >> \o ShQuote(v.c) \o << 39 >> ELSE TextOf(v)
+IsScalar(v) == v.t \in {"null", "bool", "str"} \/ IsNum(v)
+RECURSIVE JoinWith(_, _)
+JoinWith(parts, sep) == IF parts = <<>> THEN <<>> ELSE IF Len(parts) = 1 THEN parts[1] ELSE parts[1] \o sep \o JoinWith(Tail(parts), sep)
+\* result: code points, or <<-1000>> for "fails"
+ShFail == << -1000 >>
+Sh(v) == IF IsScalar(v) THEN ShScalar(v)
+         ELSE IF v.t = "arr" /\ \A i \in 1..Len(v.a) : IsScalar(v.a[i]) THEN JoinWith([i \in 1..Len(v.a) |-> ShScalar(v.a[i])], << 32 >>)
+         ELSE ShFail
+
+\* tocsv / totsv of a row of scalars
+RECURSIVE Dbl(_)
+Dbl(cs) == IF cs = <<>> THEN <<>> ELSE (IF Head(cs) = 34 THEN << 34, 34 >> ELSE << Head(cs) >>) \o Dbl(Tail(cs))
+CsvField(v) == IF v.t = "null" THEN <<>> ELSE IF v.t = "str" THEN << 34 >> \o Dbl(v.c) \o << 34 >> ELSE TextOf(v)
+RECURSIVE TsvEsc(_)
+TsvEsc(cs) == IF cs = <<>> THEN <<>>
+              ELSE (CASE Head(cs) = 10 -> << 92, 110 >> [] Head(cs) = 13 -> << 92, 114 >> [] Head(cs) = 9 -> << 92, 116 >>
+                      [] Head(cs) = 92 -> << 92, 92 >> [] Head(cs) = 0 -> << 92, 48 >> [] OTHER -> << Head(cs) >>) \o TsvEsc(Tail(cs))
+TsvField(v) == IF v.t = "null" THEN <<>> ELSE IF v.t = "str" THEN TsvEsc(v.c) ELSE TextOf(v)
+Csv(v) == IF v.t = "arr" /\ \A i \in 1..Len(v.a) : IsScalar(v.a[i]) THEN JoinWith([i \in 1..Len(v.a) |-> CsvField(v.a[i])], << 44 >>) ELSE ShFail
+Tsv(v) == IF v.t = "arr" /\ \A i \in 1..Len(v.a) : IsScalar(v.a[i]) THEN JoinWith([i \in 1..Len(v.a) |-> TsvField(v.a[i])], << 9 >>) ELSE ShFail
+
+\* decoders ---------------------------------------------------------------
+\* @htmld: one pass from the left, the five entities
+HtmlEnts == << << << 38, 108, 116, 59 >>, 60 >>, << << 38, 103, 116, 59 >>, 62 >>, << << 38, 97, 109, 112, 59 >>, 38 >>,
+               << << 38, 97, 112, 111, 115, 59 >>, 39 >>, << << 38, 113, 117, 111, 116, 59 >>, 34 >> >>
+IsPrefixOf(p, s) == Len(p) <= Len(s) /\ SubSeq(s, 1, Len(p)) = p
+RECURSIVE HtmlDec(_)
+HtmlDec(cs) ==
+  IF cs = <<>> THEN <<>>
+  ELSE LET hit == {i \in 1..5 : IsPrefixOf(HtmlEnts[i][1], cs)} IN
+       IF hit = {} THEN << Head(cs) >> \o HtmlDec(Tail(cs))
+       ELSE LET i == CHOOSE i \in hit : TRUE IN << HtmlEnts[i][2] >> \o HtmlDec(SubSeq(cs, Len(HtmlEnts[i][1]) + 1, Len(cs)))
+
+\* Base64 decoding of a sequence of (ASCII) characters.  Result: [k |-> "ok", y |-> bytes] for canonical input,
+\* [k |-> "bad"] for input that is not Base64 at all (foreign character, padding inside, impossible length), and
+\* [k |-> "lax", y |-> bytes] for input whose data is determined but whose padding / trailing bits are not canonical
+\* (a decoder may accept or reject these; it must not drop data)
+B64Val(c) == IF c >= 65 /\ c <= 90 THEN c - 65 ELSE IF c >= 97 /\ c <= 122 THEN c - 71 ELSE IF c >= 48 /\ c <= 57 THEN c + 4 ELSE IF c = 43 THEN 62 ELSE IF c = 47 THEN 63 ELSE -1
+RECURSIVE B64Body(_)
+B64Body(d) ==   \* d: sequence of 6-bit values, Len(d) % 4 # 1
+  IF d = <<>> THEN <<>>
+  ELSE IF Len(d) = 2 THEN << d[1] * 4 + d[2] \div 16 >>
+  ELSE IF Len(d) = 3 THEN << d[1] * 4 + d[2] \div 16, (d[2] % 16) * 16 + d[3] \div 4 >>
+  ELSE << d[1] * 4 + d[2] \div 16, (d[2] % 16) * 16 + d[3] \div 4, (d[3] % 4) * 64 + d[4] >> \o B64Body(SubSeq(d, 5, Len(d)))
+Base64Dec(cs) ==
+  LET n == Len(cs)
+      pads == IF n >= 2 /\ cs[n] = 61 /\ cs[n - 1] = 61 THEN 2 ELSE IF n >= 1 /\ cs[n] = 61 THEN 1 ELSE 0
+      body == SubSeq(cs, 1, n - pads)
+      d == [i \in 1..Len(body) |-> B64Val(body[i])]
+      m == Len(body) % 4
+  IN IF \E i \in 1..Len(d) : d[i] = -1 THEN [k |-> "bad"]
+     ELSE IF m = 1 THEN [k |-> "bad"]
+     ELSE LET y == B64Body(d)
+              spare == IF m = 2 THEN d[Len(d)] % 16 ELSE IF m = 3 THEN d[Len(d)] % 4 ELSE 0
+              canon == spare = 0 /\ ((m = 0 /\ pads = 0) \/ (m = 2 /\ pads = 2) \/ (m = 3 /\ pads = 1))
+          IN [k |-> IF canon THEN "ok" ELSE "lax", y |-> y]
+
+\* percent-decoding of a byte sequence; a % that is not followed by two hexadecimal digits is not an escape
+HexVal(b) == IF b >= 48 /\ b <= 57 THEN b - 48 ELSE IF b >= 65 /\ b <= 70 THEN b - 55 ELSE IF b >= 97 /\ b <= 102 THEN b - 87 ELSE -1
+RECURSIVE PercentDec(_)
+\* [wf |-> every % starts an escape, y |-> bytes with the well-formed escapes decoded and everything else kept]
+PercentDec(b) ==
+  IF b = <<>> THEN [wf |-> TRUE, y |-> <<>>]
+  ELSE IF Head(b) = 37
+       THEN IF Len(b) >= 3 /\ HexVal(b[2]) >= 0 /\ HexVal(b[3]) >= 0
+            THEN LET r == PercentDec(SubSeq(b, 4, Len(b))) IN [wf |-> r.wf, y |-> << HexVal(b[2]) * 16 + HexVal(b[3]) >> \o r.y]
+            ELSE LET r == PercentDec(Tail(b)) IN [wf |-> FALSE, y |-> << 37 >> \o r.y]
+       ELSE LET r == PercentDec(Tail(b)) IN [wf |-> r.wf, y |-> << Head(b) >> \o r.y]
 =============================================================================
